@@ -607,6 +607,134 @@ fn slave_phases(rep: &mut Report, seed: u64) {
     }
 }
 
+/// The port was master and sent Syncs whose transmit timestamps are reported late - after the BMCA
+/// has made it slave and a Delay_Req is outstanding. Sync and Delay_Req sequence ids are counted
+/// separately per port and coincide here. The delay measurement must be built from the
+/// Delay_Req's own timestamp.
+fn late_sync_timestamp_after_role_change(rep: &mut Report, seed: u64) {
+    use statime::observability::port::PortState;
+    let replay = json!({"late_sync_timestamp_seed": seed});
+    let mut rng = StdRng::seed_from_u64(seed);
+    let mut b = Build::new(2);
+    b.rec_reply = ReplyMode::Counter { step: 1_000_003 };
+    b.seed = seed;
+    let Ok(built) = b.build() else { return };
+    let mut node = built.node;
+    let Some(rec) = built.rec else { return };
+    let (oc, op) = node.port_identity_bytes(0);
+    let own = Pid { clock: oc, port: op };
+    let mut now = 1_700_000_000 * SEC + rng.gen_range(0..SEC);
+    if node.call(0, Call::AnnounceReceiptTimer).is_err() || node.port_state(0) != PortState::Master {
+        return;
+    }
+    // n_sync Syncs as master; the timestamps of the last `held` of them are not reported yet
+    let n_sync = rng.gen_range(1..=4usize);
+    let held = rng.gen_range(1..=n_sync);
+    let mut sync_ctx: Vec<(u16, TimestampContext)> = vec![];
+    for k in 0..n_sync {
+        now += SEC / 8;
+        let Ok(acts) = node.call(0, Call::SyncTimer) else { return };
+        for a in acts {
+            if let Act::SendEvent { ctx: Some(c), data, .. } = a {
+                if let Ok(m) = Msg::decode(&data) {
+                    if m.hdr.msg_type == T_SYNC {
+                        if k + held >= n_sync {
+                            sync_ctx.push((m.hdr.seq, c));
+                        } else if node.call(0, Call::TxTimestamp(c, time_from_units(now))).is_err() {
+                            return;
+                        }
+                    }
+                }
+            }
+        }
+    }
+    let sync_tx_time = now - (3 * SEC / 2);
+    let mut parent = Remote::new(9, 1);
+    now += SEC;
+    if make_slave(&mut node, 0, &mut parent).is_err() || node.port_state(0) != PortState::Slave {
+        return;
+    }
+    // Delay_Reqs until one carries the sequence id of a held Sync (the first does when all
+    // timestamps but the last were reported... or none: ids are what they are, the held ones are tried all)
+    let mut reqs: Vec<(u16, TimestampContext)> = vec![];
+    for _ in 0..n_sync {
+        now += SEC / 4;
+        let Ok(acts) = node.call(0, Call::DelayRequestTimer) else { return };
+        for a in acts {
+            if let Act::SendEvent { ctx: Some(c), data, .. } = a {
+                if let Ok(m) = Msg::decode(&data) {
+                    if m.hdr.msg_type == T_DELAY_REQ {
+                        reqs.push((m.hdr.seq, c));
+                    }
+                }
+            }
+        }
+        let Some((seq, _)) = reqs.last() else { return };
+        if sync_ctx.iter().any(|(s, _)| s == seq) {
+            break;
+        }
+        // not a coinciding id yet: complete this exchange normally and go on
+        let (seq, c) = reqs.pop().unwrap();
+        let t3 = now;
+        let t4 = units_to_ts(t3 + (100_000u128 << 32));
+        if node.call(0, Call::TxTimestamp(c, time_from_units(t3))).is_err() || node.call(0, Call::GeneralRx(parent.src.delay_resp(seq, t4, own, 0).encode())).is_err() {
+            return;
+        }
+    }
+    let Some((seq, req_ctx)) = reqs.pop() else { return };
+    let coincide = sync_ctx.iter().any(|(s, _)| *s == seq);
+    rep.ev("late_sync_timestamp_scenario");
+    if coincide {
+        rep.ev("late_sync_timestamp_with_the_sequence_id_of_the_outstanding_delay_req");
+    }
+    let t3 = now + rng.gen_range(0..(1u128 << 34));
+    let t4 = units_to_ts(t3 + (rng.gen_range(50_000..900_000u128) << 32));
+    let before = rec.lock().unwrap().events.len();
+    // the late Sync timestamps, the Delay_Req timestamp and the Delay_Resp in a seeded order (the
+    // response last or second to last)
+    let late_first = rng.gen_bool(0.7);
+    let mut req_ctx = Some(req_ctx);
+    if !late_first {
+        if node.call(0, Call::TxTimestamp(req_ctx.take().unwrap(), time_from_units(t3))).is_err() {
+            return;
+        }
+    }
+    for (_, c) in sync_ctx {
+        if node.call(0, Call::TxTimestamp(c, time_from_units(sync_tx_time))).is_err() {
+            return;
+        }
+    }
+    if let Some(c) = req_ctx.take() {
+        if node.call(0, Call::TxTimestamp(c, time_from_units(t3))).is_err() {
+            return;
+        }
+    }
+    if node.call(0, Call::GeneralRx(parent.src.delay_resp(seq, t4, own, 0).encode())).is_err() {
+        return;
+    }
+    let want = t3 as i128 - t4.to_units() as i128;
+    let g = rec.lock().unwrap();
+    let mut n = 0;
+    for ev in &g.events[before..] {
+        if let RecEvent::Measurement { m, .. } = ev {
+            if let Some(rd) = m.raw_delay_offset {
+                n += 1;
+                rep.ev("delay_measurement");
+                if dur_units(rd) != want {
+                    rep.violation(
+                        "C09|late-sync-timestamp|delay-offset-not-one-exchange",
+                        &format!("Delay_Req seq {seq} sent at {t3}, answered with {t4:?}: raw_delay_offset {} units, expected {want}; transmit timestamps ({sync_tx_time}) of Syncs the port sent while it was master were reported in between", dur_units(rd)),
+                        replay.clone(),
+                    );
+                }
+            }
+        }
+    }
+    if n != 1 {
+        rep.violation("C09|late-sync-timestamp|measurement-count", &format!("{n} delay measurements for one complete Delay_Req/Delay_Resp exchange (seq {seq}) around late Sync transmit timestamps"), replay.clone());
+    }
+}
+
 fn alphabet_sync() -> Vec<E> {
     vec![E::S(0), E::F(0), E::S(1), E::F(1), E::S(2), E::F(2)]
 }
@@ -617,7 +745,7 @@ fn full_alphabet() -> Vec<E> {
 
 pub fn run(rep: &mut Report, tier: &str, seed: u64, shard: (u32, u32), replay: Option<&str>) {
     rep.rule = "event scripts over the messages of three Sync exchanges (two-step / one-step / mixed) and Delay_Req exchanges of a slave port: every sequence up to a length bound over the six Sync/Follow_Up messages is enumerated, delay events, foreign-master copies, late/duplicate/other-requester responses are interleaved by seeded sampling; unique random timestamps and corrections per exchange; distinct = distinct (script, parameters); non-trivial = at least one measurement reached the filter".into();
-    rep.require(&["sync_measurement", "delay_measurement", "stray_follow_up_for_one_step_sync", "parent_port_switch", "second_slave_phase"]);
+    rep.require(&["sync_measurement", "delay_measurement", "stray_follow_up_for_one_step_sync", "parent_port_switch", "second_slave_phase", "late_sync_timestamp_with_the_sequence_id_of_the_outstanding_delay_req"]);
     if let Some(path) = replay {
         let v: serde_json::Value = serde_json::from_str(&std::fs::read_to_string(path).unwrap()).unwrap();
         if let Ok(c) = serde_json::from_value::<Case>(v["case"].clone()) {
@@ -715,6 +843,7 @@ pub fn run(rep: &mut Report, tier: &str, seed: u64, shard: (u32, u32), replay: O
         if i % 200 == 0 {
             parent_port_switch(rep, rng.gen());
             slave_phases(rep, rng.gen());
+            late_sync_timestamp_after_role_change(rep, rng.gen());
         }
     }
 }
